@@ -111,9 +111,9 @@ def check_coverage(ctx, chk):
     G = f"{GEN_MOD}:ScenarioGenerator."
     upd = [ev for ev in s.events if ev.kind == "call"
            and ev.data["fname"] == G + "_update_host_to_vulnerable"]
-    H = "each(G.hosts.items())"
-    SENS = f"{G}_is_sensitive_host(G, {H}[0])"
-    VUL2 = f"{G}_host_is_vulnerable(G, {H}[1], 2)"
+    HK, HV = "each(G.hosts)", "G.hosts[each(G.hosts)]"
+    SENS = f"{G}_is_sensitive_host(G, {HK})"
+    VUL2 = f"{G}_host_is_vulnerable(G, {HV}, 2)"
     sens_upd = [ev for ev in upd if len(ev.data["args"]) >= 3 and ev.data["args"][2] == C(2)]
     ok = len(sens_upd) == 1
     detail = f"{len(sens_upd)} ROOT patch call(s)"
@@ -122,8 +122,8 @@ def check_coverage(ctx, chk):
         loops = [cn.show(ip.loops[c[1]]["iter"]) for c in ev.pc if c[0] == "inloop"]
         F = cn.conj(tuple(c for c in ev.pc if c[0] not in ("inloop", "fact")))
         want = f_and([A(SENS), f_not(A(VUL2))])
-        ok = loops == ["G.hosts.items()"] and f_equiv(F, want) and \
-            cn.show(ev.data["args"][1]) == f"{H}[1]"
+        ok = loops == ["G.hosts"] and f_equiv(F, want) and \
+            cn.show(ev.data["args"][1]) == HV
         detail = f"called under {f_show(F)[:300]} in loops {loops}"
     chk.ob("C16.coverage", "every sensitive host that is not vulnerable at ROOT is patched at ROOT "
            "(loop over all hosts)", ok, detail, fi.module.path)
@@ -174,13 +174,13 @@ def check_coverage(ctx, chk):
         "_host_is_vulnerable_to_exploit", "_host_is_vulnerable_to_privesc"))
     host, lvl = fi.params[1], fi.params[2]
     G_ = f"{GEN_MOD}:ScenarioGenerator."
-    E, P = "each(G.exploits.values())", "each(G.privescs.values())"
+    E, P = "G.exploits[each(G.exploits)]", "G.privescs[each(G.privescs)]"
     true_f = f_or([cn._conj_exists(list(pc), {}) for pc, t in s.returns if t == C(True)])
     vul_e = A(f"{G_}_host_is_vulnerable_to_exploit(G, {host}, {E})")
     vul_p = A(f"{G_}_host_is_vulnerable_to_privesc(G, {host}, {P})")
-    want = ("exists", "G.exploits.values()", f_and([
+    want = ("exists", "G.exploits", f_and([
         vul_e, f_or([f_not(A(f"{E}['access']<{lvl}")),
-                     ("exists", "G.privescs.values()", vul_p)])]))
+                     ("exists", "G.privescs", vul_p)])]))
     chk.ob("C16.coverage", "_host_is_vulnerable(host, level): some matching exploit with access >= "
            "level, or a matching exploit and a matching escalation", f_equiv(true_f, want),
            f"derived {f_show(true_f)[:400]}", fi.module.path)
@@ -296,11 +296,11 @@ def check_firewall(ctx, chk):
         ev = adds[0]
         F = f_show(cn.conj(tuple(c for c in ev.pc if c[0] not in ("inloop", "fact"))))
         loops = [cn.show(ip.loops[c[1]]["iter"]) for c in ev.pc if c[0] == "inloop"]
-        H, E = "each(G.hosts.items())", "each(G.exploits.values())"
-        want = f"{G_}_host_is_vulnerable_to_exploit(G, {H}[1], {E})"
+        HK, HV, E = "each(G.hosts)", "G.hosts[each(G.hosts)]", "G.exploits[each(G.exploits)]"
+        want = f"{G_}_host_is_vulnerable_to_exploit(G, {HV}, {E})"
         recv = cn.show(ev.data["recv"])
-        ok = F == want and loops == ["G.hosts.items()", "G.exploits.values()"] and \
-            cn.show(ev.data["args"][0]) == f"{E}['service']" and f"[{H}[0][0]]" in recv
+        ok = F == want and loops == ["G.hosts", "G.exploits"] and \
+            cn.show(ev.data["args"][0]) == f"{E}['service']" and f"[{HK}[0]]" in recv
         detail = f"{recv[-60:]}.add({cn.show(ev.data['args'][0])}) under {F[:200]}"
     chk.ob("C16.firewall", "subnet_services[subnet] collects the service of every exploit some host "
            "of the subnet is vulnerable to (all hosts x all exploits)", ok, detail, fi.module.path)
